@@ -84,6 +84,11 @@ func streamIsolation(o *Out, r *rand.Rand, n int, thorough bool) {
 	extra := []string{
 		"s = import(\"strings\")\ns.ToUpper = 5\nt = import(\"strings\")\nprobe(t.ToUpper(\"a\"))\nprobe(s.ToUpper)",
 		"s = import(\"sort\")\nsecret = 42\nprobe(s)",
+		// an import result that is never bound by let / var: kept in a container, passed as an argument, used directly
+		"m = {\"p\": import(\"strings\")}\nprobe(m.p.ToUpper(\"a\"))\nm.p.ToUpper = func(s) { return \"<\" + s + \">\" }\nprobe(m.p.ToUpper(\"b\"))\nprobe(import(\"strings\").ToUpper(\"c\"))",
+		"l = [import(\"strings\")]\nprobe(l[0].ToLower(\"A\"))\nl[0].ToLower = 5\nprobe(import(\"strings\").ToLower(\"B\"))",
+		"probe(import(\"strings\").Title(\"x\"))\nfunc(p) { p.Title = func(s) { return \"patched\" } }(import(\"strings\"))\nprobe(import(\"strings\").Title(\"y\"))",
+		"probe(import(\"sort\").Ints != nil)\nimport(\"sort\").Ints = nil\nprobe(import(\"sort\").Ints != nil)",
 		"a = [3, 1, 2]\nsort = import(\"sort\")\nsort.Ints(a)\nprobe(a)",
 		"func f(x) { return x + 1 }\nprobe(f(1))\nf = func(x) { return x + 100 }\nprobe(f(1))",
 		"x = 0\nfor i = 0; i < 50; i++ { x += i }\nprobe(x)\nmodule m { y = x }\nprobe(m.y)",
